@@ -1,7 +1,7 @@
 """./check configuration for C20."""
 
 PROP = dict(
-    technique='Lean fold theorem for Wrap and pool-ownership LTS with inductive invariant over all interleavings, regenerated statement skeletons incl. defer order; stress + race detector on the implementation',
+    technique='Lean fold theorem for Wrap and pool-ownership LTS with inductive invariant over all interleavings, regenerated normal-form skeletons incl. defer order; stress + race detector on the implementation',
     race=True,
     module="GolibsVerif.Theorems.C20", namespace="GolibsVerif.C20",
     rule="C20.mw: scenarios of 1..64 concurrent requests (distinct ids in host/method/raddr/request_uri/header/body/context value/"
@@ -14,9 +14,13 @@ PROP = dict(
              "dropped); net/http, httptest.ResponseRecorder, log/slog, context are not modelled",
              "the LTS interleaves requests at statement granularity and is sequentially consistent; data races inside one statement and "
              "weak-memory effects are outside the model (the accesses are to objects pool_exclusive shows are held by one request)",
-             "the translator gen/c20skel.go (statement lists of LogMiddleware.Wrap, attrsSlicePtr, logFinished, httputil.Wrap, "
-             "CopyRequestTo, CodeRecorderResponseWriter methods, syncutil.Pool) and the theorems skel_* / skel_defer_order that compare "
-             "them with the lists the transition system was written against",
+             "the translator gen/c20skel.go with the normal-form engine gen/c20norm*.go (normal forms of LogMiddleware.Wrap with its "
+             "helpers inlined, httputil.Wrap, CopyRequestTo, NewLogMiddleware, CodeRecorderResponseWriter methods, syncutil.Pool: pool "
+             "Get/Put, stores, calls that are not provably pure, branching, loop direction, deferred calls in running order at every "
+             "event whose panic the model follows; normalised away: names, helper extraction/inlining, struct grouping of the pooled "
+             "objects, early return vs else, cmp.Or vs if, loop spelling, pure computation, the position of a Get before its first use "
+             "and of a defer between two such events) and the theorems skel_* / skel_defer_order / skel_panic_path that compare "
+             "them with the normal forms the transition system was written against",
              "which invocation is which is established in the harness by goroutine identity (runtime.Stack)"],
     level_text="Lean theorems by an inductive invariant over every interleaving of any number of requests, every pool Get choice MEM-1 "
                "allows and every handler behaviour, about a labelled transition system of LogMiddleware.Wrap whose step order is tied to "
